@@ -17,7 +17,7 @@ TECH = 'explicit-state BFS over two real TcpConnection objects on a simulated so
 ASSUME = ['plans: plain = established pair; c: = A dials and sends from its on-connected callback; r: = the peer closes once at any moment, A dials again from inside its onDisconnected callback and queues its next message there',
           'send buffer of 16 bytes and recv size of 8 bytes so that messages are smaller than, around and larger than the buffers',
           'level-triggered poll: WRITE ready iff the socket has free space, READ ready iff data/EOF/error is pending',
-          'virtual clock frozen (no read timeouts in this check; C14 covers them)']
+          'virtual clock frozen except in t: plans (slow link: the receiver has a read timeout of 10 s and up to two steps of 6 s pass, each only after the receiver has read new bytes, so a connection on which bytes keep arriving must stay up)']
 
 READ, WRITE, ERROR = 1, 2, 4
 MESSAGES = {
@@ -70,6 +70,7 @@ def corrupt_frame(msg, kind):
     raise ValueError(kind)
 
 
+SLOW_TIMEOUT = 10.0
 DEFINITELY_INVALID = ('len-1', 'len-min', 'len0', 'len-short', 'flip-first', 'flip-mid', 'flip-last') + tuple(sorted(BAD_PICKLES))
 
 
@@ -129,7 +130,8 @@ class W(object):
 
 
 class FramingModel(object):
-    def __init__(self, plan, corrupt_at=None, corrupt_kind=None, sndcap=16, recvsize=8, connect=False, reconnect=False):
+    def __init__(self, plan, corrupt_at=None, corrupt_kind=None, sndcap=16, recvsize=8, connect=False, reconnect=False, slow=False):
+        self.slow = slow                  # slow link: virtual time passes while a frame is under way (the receiver has a read timeout)
         self.reconnect = reconnect        # the peer closes once; A's onDisconnected callback dials again and sends
         self.connect = connect            # A dials (non-blocking connect) and sends plan[0] from its on-connected callback
         seams.install()
@@ -166,8 +168,11 @@ class FramingModel(object):
             w.A = TcpConnection(w.poller, onDisconnected=w.rec.on_disc_a, socket=a, timeout=1e9,
                                 sendBufferSize=self.sndcap, recvBufferSize=self.recvsize)
             w.B = TcpConnection(w.poller, onMessageReceived=w.rec.on_msg, onDisconnected=w.rec.on_disc_b, socket=b,
-                                timeout=1e9, sendBufferSize=self.sndcap, recvBufferSize=self.recvsize)
+                                timeout=(SLOW_TIMEOUT if self.slow else 1e9), sendBufferSize=self.sndcap, recvBufferSize=self.recvsize)
             w.established = True
+        w.now = 1000000.0
+        w.tsteps = 0
+        w.read_since = False
         w.corrupt_idx = None
         w.exc = None
         w.epoch = 0
@@ -184,7 +189,8 @@ class FramingModel(object):
 
     def key(self, w):
         return (self._fields(w.A), self._fields(w.B) if w.B is not None else None, w.established, w.net.key(), w.poller.key(), w.next, len(w.rec.delivered),
-                tuple(sorted(w.rec.disc.items())), w.epoch, len(w.rec.delivered2), w.fa, w.fb)
+                tuple(sorted(w.rec.disc.items())), w.epoch, len(w.rec.delivered2), w.fa, w.fb,
+                (w.tsteps, w.read_since, round(w.now - w.B._TcpConnection__lastReadTime, 3)) if self.slow and w.B is not None else None)
 
     def outcome(self, w):
         return (len(w.rec.delivered), w.B.state if w.B is not None else None, w.A.state)
@@ -202,6 +208,9 @@ class FramingModel(object):
                     evs.append(('inject',))
             else:
                 evs.append(('send',))
+        if self.slow and w.tsteps < 2 and w.read_since and w.B.state == 2:
+            # time passes only after the receiver has read something new: bytes keep arriving, just slowly
+            evs.append(('time',))
         if sa.out:
             evs.append(('xfer', 'A'))
         if sb.out:
@@ -226,9 +235,13 @@ class FramingModel(object):
     def apply(self, w0, ev):
         w = copy.deepcopy(w0)
         simsock.NET[0] = w.net
-        seams.CLOCK[0] = 1000000.0
+        seams.CLOCK[0] = w.now
         try:
-            if ev[0] == 'est':
+            if ev[0] == 'time':
+                w.now += 0.6 * SLOW_TIMEOUT
+                w.tsteps += 1
+                w.read_since = False
+            elif ev[0] == 'est':
                 from pysyncobj.tcp_connection import TcpConnection
                 a, b = w.net.sockets[w.fa], w.net.sockets[w.fb]
                 a.state = b.state = 'connected'
@@ -261,6 +274,8 @@ class FramingModel(object):
                 w.net.transfer(w.fa if ev[1] == 'A' else w.fb, 1)
             elif ev[0] == 'poll':
                 fd = w.fa if ev[1] == 'A' else w.fb
+                if ev[1] == 'B' and ev[2] & READ and w.net.sockets[fd].rcv:
+                    w.read_since = True
                 w.poller.dispatch(fd, ev[2])
         except Exception as e:
             import traceback
@@ -321,6 +336,8 @@ def make_model(plan, at=None, kind=None):
         return FramingModel(plan[2:], at, kind, connect=True)
     if plan.startswith('r:'):
         return FramingModel(plan[2:], at, kind, reconnect=True)
+    if plan.startswith('t:'):
+        return FramingModel(plan[2:], at, kind, slow=True)
     return FramingModel(plan, at, kind)
 
 
@@ -373,16 +390,16 @@ def main(tier, seed, job_filter=None):
     rep = core.Report(PROP, tier, seed, TECH, ASSUME)
     q = tier == 'quick'
     if q:
-        clean = ['e', 's', 'm', 'es', 'se', 'c:s', 'c:m', 'c:se', 'r:e', 'r:s']
+        clean = ['e', 's', 'm', 'es', 'se', 'c:s', 'c:m', 'c:se', 'r:e', 'r:s', 't:e']
         cplans = ['s', 'es']
     else:
-        clean = plans_of(2, 'esm') + ['L', 'eL', 'Ls'] + ['ese', 'sms', 'ems'] + ['c:s', 'c:m', 'c:L', 'c:se', 'c:ms', 'r:e', 'r:s', 'r:m', 'r:es', 'r:ss']
+        clean = plans_of(2, 'esm') + ['L', 'eL', 'Ls'] + ['ese', 'sms', 'ems'] + ['c:s', 'c:m', 'c:L', 'c:se', 'c:ms', 'r:e', 'r:s', 'r:m', 'r:es', 'r:ss', 't:e', 't:s', 't:m']
         cplans = plans_of(2, 'esm') + ['m', 's', 'e']
     jobs = [(job, dict(name='framing:clean:%s' % p, plans=[p], corrupt=False)) for p in clean]
     for p in cplans:
         for k in CORRUPTIONS:
             jobs.append((job, dict(name='framing:corrupt:%s:%s' % (p, k), plans=[p], corrupt=True, kinds=[k])))
-    jobs.sort(key=lambda j: -len(j[1]['plans'][0].replace('c:', '').replace('r:', '')))
+    jobs.sort(key=lambda j: -len(j[1]['plans'][0].replace('c:', '').replace('r:', '').replace('t:', '')))
     if job_filter:
         jobs = [j for j in jobs if job_filter in j[1]['name']]
     rep.replay_fn = replay_trace
